@@ -159,6 +159,41 @@ func replay(path string) {
 		var rho [64]byte
 		copy(rho[:], hexf("rho"))
 		w.Emit(vt.Ev{"ev": "expandmask", "set": str("set"), "rho": str("rho"), "mu": num("mu"), "out": h.MLDSAExpandMask(h.MLDSAParams(str("set")), rho, int(num("mu")))})
+	case "sigdecode":
+		emitSigDecode(str("set"), hexf("in"))
+	case "pkdecode":
+		emitPKDecode(str("set"), hexf("in"))
+	case "skdecode":
+		emitSKDecode(str("set"), hexf("in"))
+	case "sigencode":
+		par := h.MLDSAParams(str("set"))
+		vec := func(k string) []h.MLDSAPoly {
+			a, _ := e[k].([]any)
+			o := make([]h.MLDSAPoly, len(a))
+			for i := range a {
+				pl, _ := a[i].([]any)
+				for j := range pl {
+					f, _ := pl[j].(float64)
+					if f < 0 {
+						f += q
+					}
+					if j < 256 {
+						o[i][j] = uint32(f)
+					}
+				}
+			}
+			return o
+		}
+		hl, _ := e["h"].([]any)
+		hv := make([]h.MLDSAPoly, len(hl))
+		for i := range hl {
+			pl, _ := hl[i].([]any)
+			for _, x := range pl {
+				f, _ := x.(float64)
+				hv[i][int(f)] = 1
+			}
+		}
+		w.Emit(vt.Ev{"ev": "sigencode", "set": str("set"), "c": str("c"), "z": e["z"], "h": e["h"], "out": vt.Hex(h.MLDSASigEncode(par, hexf("c"), vec("z"), hv))})
 	// ---------------------------------------------------------------- algorithm layer
 	case "keygen":
 		p := getSet(str("set"))
